@@ -2030,7 +2030,8 @@ void MessageMap::remove(Message* message) {
     m_pollMessages.remove(message);
   }
   if (needDelete) {
-    delete message;
+    // another thread might still be using the instance (e.g. a poll request in progress), so defer the deletion
+    m_removedMessages.push_back(message);
   }
   unlock();
 }
@@ -2871,6 +2872,11 @@ void MessageMap::clear() {
     }
     keyMessages.clear();
   }
+  // free removed message instances
+  for (auto message : m_removedMessages) {
+    delete message;
+  }
+  m_removedMessages.clear();
   // free condition instances
   for (const auto& it : m_conditions) {
     delete it.second;
